@@ -1,7 +1,7 @@
 (* C06 — executable comparison functions used by the generated cases file (no proofs). *)
 From Coq Require Import List NArith Bool Arith.
 From Coq Require String Ascii.
-From Dae Require Import C06_Spec C06_Model.
+From Dae Require Import C06_Spec C06_Model C06_Async C06_Session.
 Import ListNotations.
 Open Scope N_scope.
 
@@ -232,7 +232,95 @@ Definition sig_quic (c : quic_case) : N * N * N * N * N * N :=
    if q_stream_ok c then 1 else 0,
    N.of_nat (length (filter (fun o => o =? 1) os))).
 
-Inductive acase := ATcp (c : tcp_case) | AQuic (c : quic_case).
-Definition check_case (a : acase) : list N := match a with ATcp c => check_tcp c | AQuic c => check_quic c end.
+(* ------------------------------------------------------------------ asynchronous fallback cases *)
+Record async_case := {
+  ac_script : list rd;      (* the client's script; a pause is an RsTimeout event *)
+  ac_drain : N; ac_sched : sched; ac_p : N;
+  ac_impl : outcome; ac_impl_panic : bool;
+  ac_relay : bytes; ac_relay_st : rstatus; ac_relay_bad : bool; ac_late : bool }.
+
+Definition check_async (c : async_case) : list N :=
+  let '(m_out, m_st, pend, m_rest) := async_sniff (ac_script c) in
+  let m_relay := async_relay (ac_drain c) (ac_sched c) (ac_p c) m_st pend m_rest in
+  let s_relay := spec_relay (ac_script c) in
+  let i_relay := (ac_relay c, ac_relay_st c) in
+  let e1 := if ac_impl_panic c then [1] else if obs_eqb (ac_impl c) m_out then [] else [1] in
+  let e5 := if negb (ac_relay_bad c) && pair_eqb i_relay m_relay then [] else [5] in
+  let e6 := if negb (ac_relay_bad c) && pair_eqb i_relay s_relay then [] else [6] in
+  let e7 := if ac_impl_panic c || ac_relay_bad c then [7] else [] in
+  let e9 := if pair_eqb m_relay s_relay then [] else [9] in
+  let e11 := if ac_late c then [11] else [] in
+  e1 ++ e5 ++ e6 ++ e7 ++ e11 ++ e9.
+Definition sig_async (c : async_case) : N * N * N * N * N * N :=
+  let '(m_out, m_st, pend, m_rest) := async_sniff (ac_script c) in
+  (4, outcome_code m_out, ac_drain c, match ac_sched c with LateFirst => 0 | DrainFirst => 1 end,
+   match pend with Some _ => 1 | None => 0 end, N.min 6 (N.of_nat (length (ac_script c) - length m_rest))).
+
+(* ------------------------------------------------------------------ UDP sniff session cases *)
+Record sess_step := {
+  sp_event : sevent;               (* time, datagram, the sniffer's answer as observed, janitor race bit *)
+  sp_held_verdict : bool;          (* implementation: the datagram was withheld *)
+  sp_payloads : list bytes;        (* implementation: what was forwarded now (replayed ones, then this one) *)
+  sp_domain : bytes;
+  sp_held_after : list bytes;      (* sniffer.Data()[1:] after the step *)
+  sp_session : bool; sp_panic : bool }.
+Record sess_case := {
+  sc_steps : list sess_step;
+  sc_complete : bool;              (* the flight delivered a complete ClientHello: the client has nothing more to add *)
+  sc_final_held : list bytes;      (* implementation: still withheld when the flight is over *)
+  sc_final_gone : bool }.          (* ... and after the TTL the session (with them) was collected *)
+
+Definition lbytes_eqb (a b : list bytes) : bool :=
+  (length a =? length b)%nat && forallb (fun p => bytes_eqb (fst p) (snd p)) (combine a b).
+
+(* error codes as above plus 13: datagrams of a complete flight are withheld for good *)
+Fixpoint check_sess_steps (steps : list sess_step) (st : cstate) : list N * cstate :=
+  match steps with
+  | [] => ([], st)
+  | s :: rest =>
+      let '(o, dropped, st1) := step st (sp_event s) in
+      let m_held := match cs_sess st1 with Some x => ss_held x | None => [] end in
+      let e7 := if sp_panic s then [7] else [] in
+      let e1 := match o with
+                | OHeld => if sp_held_verdict s then [] else [1]
+                | OForward pl d => if negb (sp_held_verdict s) && lbytes_eqb pl (sp_payloads s)
+                                      && bytes_eqb d (sp_domain s) then [] else [1]
+                end in
+      let e4 := if lbytes_eqb m_held (sp_held_after s)
+                   && Bool.eqb (sp_session s) (match cs_sess st1 with Some _ => true | None => false end)
+                then [] else [4] in
+      let '(es, st2) := check_sess_steps rest st1 in
+      (e7 ++ e1 ++ e4 ++ es, st2)
+  end.
+
+Definition check_sess (c : sess_case) : list N :=
+  let '(es, st) := check_sess_steps (sc_steps c) init_cstate in
+  let h := map sp_event (sc_steps c) in
+  let '(outs, fwd, dropped, stf) := run_session h in
+  let i_fwd := concat (map sp_payloads (sc_steps c)) in
+  let inputs := map ev_data h in
+  (* model = spec: the accounting theorem re-observed *)
+  let e3 := if negb (monotone h) then [] else
+            if (length dropped =? 0)%nat then (if lbytes_eqb (fwd ++ pending stf) inputs then [] else [3]) else [] in
+  (* impl = spec: exactly once, in order, or still withheld *)
+  let e6 := if (length dropped =? 0)%nat
+            then (if lbytes_eqb (i_fwd ++ (if (length (pending stf) =? 0)%nat then [] else sc_final_held c)) inputs then [] else [6])
+            else [] in
+  let e13 := if sc_complete c && negb (length (sc_final_held c) =? 0)%nat then [13] else [] in
+  let e9 := if sc_complete c && negb (length (pending stf) =? 0)%nat then [9] else [] in
+  es ++ e6 ++ e13 ++ e3 ++ e9.
+
+Definition sres_code (r : sres) : N := match r with SrFound _ => 1 | SrNeedMore => 2 | SrNotApp => 3 | SrOther => 4 end.
+Definition sig_sess (c : sess_case) : N * N * N * N * N * N :=
+  let h := map sp_event (sc_steps c) in
+  let '(outs, fwd, dropped, stf) := run_session h in
+  (5, N.of_nat (length h),
+   fold_left (fun a e => a * 5 + match e with EvPacket _ _ r _ => sres_code r end) (firstn 4 h) 0,
+   N.of_nat (length (pending stf)), N.of_nat (length dropped),
+   match cs_failed stf with Some _ => 1 | None => 0 end).
+
+Inductive acase := ATcp (c : tcp_case) | AQuic (c : quic_case) | AAsync (c : async_case) | ASess (c : sess_case).
+Definition check_case (a : acase) : list N :=
+  match a with ATcp c => check_tcp c | AQuic c => check_quic c | AAsync c => check_async c | ASess c => check_sess c end.
 Definition case_signature (a : acase) : N * N * N * N * N * N :=
-  match a with ATcp c => sig_tcp c | AQuic c => sig_quic c end.
+  match a with ATcp c => sig_tcp c | AQuic c => sig_quic c | AAsync c => sig_async c | ASess c => sig_sess c end.
